@@ -2,6 +2,7 @@
 import ast
 import copy
 import re
+import threading
 from typing import List, Tuple, Union, cast
 
 from func_adl.ast.call_stack import argument_stack, stack_frame
@@ -22,13 +23,16 @@ from func_adl.util_ast import (
 )
 
 argument_var_counter = 0
+# Queries can be simplified in several threads at once: the counter only ever moves forward
+_argument_var_counter_lock = threading.Lock()
 
 
 def arg_name():
     "Return a unique name that can be used as an argument"
     global argument_var_counter
-    n = "arg_{0}".format(argument_var_counter)
-    argument_var_counter += 1
+    with _argument_var_counter_lock:
+        n = "arg_{0}".format(argument_var_counter)
+        argument_var_counter += 1
     return n
 
 
@@ -44,7 +48,8 @@ def reserve_arg_names(a: ast.AST):
         name = node.id if isinstance(node, ast.Name) else node.arg if isinstance(node, ast.arg) else ""
         m = re.fullmatch(r"arg_(\d+)", name)
         if m is not None:
-            argument_var_counter = max(argument_var_counter, int(m.group(1)) + 1)
+            with _argument_var_counter_lock:
+                argument_var_counter = max(argument_var_counter, int(m.group(1)) + 1)
 
 
 def _other_parameter_names(args: ast.arguments) -> List[str]:
